@@ -123,3 +123,84 @@ CONFIG['C14'] = {
                   "up to 7x7 / 12x12, five placements), not generated from it.",
     'technique': "Lean 4 theorems by structural induction on view descriptors and list induction + exhaustive differential correspondence",
 }
+
+CONFIG['C08'] = {
+    'runs': [{'profile': 'verif-dbg', 'features': 'rayon'}],
+    'rule': "harness built with the crate's `rayon` feature: (1) band-count arithmetic through the hook on a 22 x 22 boundary grid "
+            "(0, 1, 255..257, 65535..65537, 2^31, u32::MAX, ...) plus seeded random u32 pairs, compared with the translated functions; "
+            "(2) resizes of all 13 pixel types x {Nearest, Convolution, Interpolation, SuperSampling} x alpha on/off x geometries incl. "
+            "1xN, Nx1, 65,535 / 65,536 / 65,537 rows or columns, under real pools of 2,3,4,5,7,8,16,32,61 threads (more threads than "
+            "rows included), three repetitions each, byte-compared with the pool-of-one (sequential path) result; (3) the four alpha "
+            "operations on six alpha types under pools of 2,5,16,32. distinct_nontrivial counts distinct (configuration, threads) lines.",
+    'trusted_base': COMMON_TB + [
+        "rayon's scheduler and the data-race freedom of UnsafeImageMut (raw-pointer views) are not modelled: the theorem "
+        "schedule_independent is about interleavings of atomic single-pixel writes of tasks with disjoint targets",
+    ],
+    'assumptions': [
+        "band-locality of the kernels (a destination row depends on its source row only / a destination column band on the same source "
+        "column band) is what banded_rows_eq_sequential / banded_cols_aligned express over the view model; the kernels themselves are "
+        "tied by the byte comparison under real pools",
+    ],
+    'partial': ["OS thread schedules cannot be enumerated by a theorem: the interleaving model is what is proved, real pools are sampled"],
+    'level_text': "Machine-checked proof (Lean 4): the band-count arithmetic (re-translated from src/threading.rs on every run) is total for all "
+                  "u32 sizes and never exceeds the split extent; a banded row pass performs literally the writes of the sequential pass, "
+                  "column bands are aligned and their writes are a permutation of the sequential ones (from the C14 tiling theorems); any "
+                  "order of writes with distinct targets gives the same memory, hence independence of schedule and thread count in the "
+                  "model. Real pools of 1..61 threads are compared byte-for-byte on every run, incl. the 65,536 overflow edge.",
+    'level_note': "Trusted: Lean kernel, rs2lean, harness. Not modelled: rayon's scheduler, real data races through UnsafeImageMut.",
+    'technique': "Lean 4 theorems (translated arithmetic; permutation-invariance of disjoint writes; tiling lemmas) + differential runs under real thread pools",
+}
+
+
+def extract_color_tables(repo, root, report):
+    """(X) pre-build step of C16: dump the 16 tables from the running implementation and regenerate
+    lean/Fir/Generated/Color/*.lean (rewritten only when a table changed)."""
+    import os
+    import subprocess
+    env = dict(os.environ)
+    env['CARGO_NET_OFFLINE'] = 'true'
+    h = os.path.join(root, 'harness')
+    p = subprocess.run(['cargo', 'build', '--profile', 'verif-dbg'], cwd=h, stdout=subprocess.PIPE, stderr=subprocess.STDOUT, text=True, env=env)
+    if p.returncode != 0:
+        return 1, 'cargo build failed: ' + '; '.join(l for l in p.stdout.splitlines() if l.startswith('error'))[:400]
+    out = os.path.join(root, 'work', 'tables')
+    p = subprocess.run([os.path.join(h, 'target', 'verif-dbg', 'fir-harness'), 'dump-tables', '--out', out],
+                       cwd=h, stdout=subprocess.PIPE, stderr=subprocess.STDOUT, text=True, env=env)
+    if p.returncode != 0:
+        return 1, 'dump-tables failed: ' + p.stdout[-300:]
+    p = subprocess.run(['python3', os.path.join(root, 'tools', 'extract_tables.py'), os.path.join(out, 'tables.txt'),
+                        os.path.join(root, 'lean', 'Fir', 'Generated')], stdout=subprocess.PIPE, stderr=subprocess.STDOUT, text=True)
+    report['extract_tables'] = p.stdout.strip().splitlines()
+    viol = [l for l in p.stdout.splitlines() if 'TABLE-VIOLATION' in l]
+    report['table_violations'] = viol
+    if p.returncode != 0:
+        return 1, p.stdout[-300:]
+    return 0, ''
+
+
+CONFIG['C16'] = {
+    'pre_build': [extract_color_tables],
+    'runs': [{'profile': 'verif-dbg'}],
+    'rule': "(X) the 16 tables are extracted from the running implementation through the public API (complete ramps through "
+            "single-channel images) and become Lean literals with their own complete-domain checks; (H) all 16 complete tables again "
+            "through multi-row images, compared entry by entry with the transfer functions evaluated by the model (Float32 powf); images "
+            "with alpha at every position of rows of length 1..9, pixel types U8..U8x4 / U16..U16x4, all four depth combinations, both "
+            "directions, both mappers, two-image and in-place; all 13 x 13 type pairs and a size mismatch for the rejection logic. "
+            "distinct_nontrivial counts distinct request lines.",
+    'trusted_base': COMMON_TB + [
+        "tools/extract_tables.py + `fir-harness dump-tables` (the tables are those of the running code, not of a model)",
+        "the clause 'every entry equals the documented transfer function rounded' rests on Lean Float32 / glibc powf agreeing with Rust's "
+        "(observed entry by entry on every run, not proved)",
+    ],
+    'assumptions': ["the round-trip clause is claimed (and proved) for 8-bit sRGB -> 16-bit linear -> 8-bit sRGB only, as the property states; "
+                    "gamma 2.2 loses the value 1 on that trip"],
+    'partial': ["transfer-function accuracy of the table entries is by complete correspondence (all 2 x 2 x (256+256+65536+65536) entries), "
+                "not by theorem: f32 powf is opaque to the kernel"],
+    'level_text': "Machine-checked proof (Lean 4) over tables extracted from the running implementation on every run: each of the 16 tables is "
+                  "monotone over its complete domain, fixes 0 and the maximum (decide +kernel, lifted to all index pairs by induction), and "
+                  "the sRGB 8->16->8 round trip is the identity on all 256 values; the alpha-gap logic of the model is proved to pass exactly "
+                  "the last component of 2- and 4-component pixels around the table for every row length, its source text pinned; the "
+                  "model (tables recomputed with Float32 powf, gap logic, rejection table) is compared with the real mappers.",
+    'level_note': "Trusted: Lean kernel, table extractor, harness/protocol; Float32/powf conformance observed, not proved.",
+    'technique': "Lean 4 decide +kernel over complete extracted tables + structural theorems about the gap logic + differential correspondence",
+}
